@@ -15,9 +15,10 @@ from ..gen import c01_rsmi as R
 from ..gen import c01_str as T
 from ..gen import c01_hist as HI
 from ..gen import c01_misc as MI
+from ..gen import c01_rs as RS
 
 PID = "C01"
-COQ_HEADER = ("From Coq Require Import List NArith ZArith.\nFrom SK Require Import lib.Tok lib.LGraph model.C01_Model model.C02_Model model.C01_Opts model.C01_String model.C01_Attrs model.C01_CleanWc.\nFrom Coq Require Import String.\n"
+COQ_HEADER = ("From Coq Require Import List NArith ZArith.\nFrom SK Require Import lib.Tok lib.LGraph model.C01_Model model.C02_Model model.C01_Opts model.C01_String model.C01_Attrs model.C01_CleanWc model.C01_Rsmi model.C01_Nbrs model.C01_Conv model.C01_G2M.\nFrom Coq Require Import String.\n"
               "Import ListNotations.\nOpen Scope Z_scope.\n")
 SHARD = 400
 IMPL_TIMEOUT = 1500
@@ -53,7 +54,11 @@ EXPLANATION = ("Exhaustive sub-space (both tiers): ALL pairs (G,H) on a shared n
                "options, graph_to_rsmi without ITS, and option paths without a model of their own checked against the reference path (api-misc).  "
                "Round 4: caller-chosen node_attrs - rsmi_to_its(node_attrs=sorted / reversed / permuted / repeated / reduced list) through "
                "the whole pipeline (str-na-*), construct(node_attrs=L) with the positional its_decompose over untyped values (attrs), "
-               "clean_wc / its_to_rsmi(clean_wildcards=True) at text level (cwc).")
+               "clean_wc / its_to_rsmi(clean_wildcards=True) at text level (cwc).  Round 5: the WHOLE-STRING level (kinds rs-split, rs-str: "
+               "rsmi.split('>>') on adversarial strings, rsmi_to_graph / rsmi_to_its / its_to_rsmi under every option - drop_non_aam, sanitize, "
+               "use_index_as_atom_map, core, explicit_hydrogen (before core), writer sanitize / explicit_hydrogen / clean_wildcards - with "
+               "unparsable / unsanitisable sides, wrong numbers of '>>', sides the writer refuses: value, None and exception are told apart); "
+               "the 'neighbors' lists are computed by the model from the bonds in every reaction-string case.")
 TRUSTED_BASE = [
     "Coq 8.16.1 kernel + vm_compute (no native_compute); stdlib only",
     "hand-written models coq/model/C01_Model.v, C01_Opts.v (ITSConstruction options), C01_String.v (MolToGraph.transform, implicit_hydrogen, "
@@ -63,8 +68,11 @@ TRUSTED_BASE = [
     "interning; attributes -> tok; monkeypatched recording of the graphs its_to_rsmi passes to GraphToMol and of the preserve set)",
     "networkx Graph / copy.deepcopy / copy.copy semantics",
     "RDKit: MolFromSmiles, SanitizeMol, atom/bond getters, RWMol construction, MolToSmiles - parameters rd_read / rd_write of theorem "
-    "C01_rsmi_pipeline with contract R1 (premise), monitored on every corpus case, not verified; 'neighbors' (sorted neighbour symbols) is "
-    "read off RDKit by the harness, the model does not sort strings",
+    "C01_rsmi_pipeline with contract R1 (premise), monitored on every corpus case, not verified.  Since round 5 'neighbors' is computed by "
+    "the model from the bond list (model/C01_Nbrs.v: other ends of the atom's bonds, insertion sort by the bytes decoded from the interned "
+    "symbol code); trusted there: RDKit's GetNeighbors = the atoms joined by GetBonds, Python's str order on ASCII = byte order",
+    "whole-string level (model/C01_Rsmi.v): RDKit enters as two finite tables recorded per case by harness/gen/c01_rs.py (reader: plain RDKit "
+    "calls on the two parts; writer: digest of the RWMol content -> what MolToSmiles returned inside the implementation's own graph_to_smi)",
 ]
 ASSUMPTIONS = [
     "node ids are natural numbers; atom_map, hcount, charge are integers; bond orders are multiples of 0.5",
@@ -84,9 +92,11 @@ TESTED_NOT_PROVED = [
     "reactions with explicit reacting hydrogens end to end: the graph-level statements are theorems C01_implicit_hydrogen and C01_its_to_graphs, the "
     "string-level conclusion (C01_rsmi_pipeline) is proved only for reactions without explicit hydrogen atoms (for the writer option "
     "explicit_hydrogen=True it is proved for all balanced reactions: C01_rsmi_pipeline_explicit)",
+    "W0: what MolToSmiles returns never contains '>' (premise of C01_rsmi_string_roundtrip / _explicit): oracle clause string-format on every rs-str "
+    "case with default options, and the str-* oracle requires exactly one '>>' in what its_to_rsmi writes",
     "implicit_hydrogen keeps every non-hydrogen atom's total H on graphs whose hydrogens have one bond: oracle on every ih case (theorem C01_implicit_hydrogen for all well-formed graphs)",
 ]
-LEVEL_TEXT = ("Machine-checked proof (Coq, 29 theorems) over an executable model of ITSConstruction.construct/ITSGraph and its_decompose: for all well-formed "
+LEVEL_TEXT = ("Machine-checked proof (Coq, 40 theorems) over an executable model of ITSConstruction.construct/ITSGraph and its_decompose: for all well-formed "
               "reactant/product graphs on the same node set with positive bond orders, decompose(construct(G,H)) returns exactly G and H "
               "(atoms, element, aromaticity, hydrogen count, charge, atom_map = node id, every bond with its order) - for every value of "
               "ignore_aromaticity, balance_its, store and attributes_defaults; the ITS has exactly the union of the nodes and bonds, every bond "
@@ -98,7 +108,11 @@ LEVEL_TEXT = ("Machine-checked proof (Coq, 29 theorems) over an executable model
               "its_to_rsmi(rsmi_to_its(r)) relative to a written-out contract on RDKit's reader/writer alone; renumbering the atom maps of a "
               "reaction commutes with the molecule graphs, the ITS, the reaction centre and what its_to_rsmi writes. Every model is compared "
               "with the Python code on every run, including the intermediate graphs recorded inside its_to_rsmi, and in multi-call histories "
-              "on shared objects (the model is pure, so every step must equal the fresh value).")
+              "on shared objects (the model is pure, so every step must equal the fresh value). Round 5: the six string functions of "
+              "chem_converter are modelled on whole strings (split at '>>' proved inverse to the f'{r}>>{p}' assembly, every failure mode as value / "
+              "None / exception, option order explicit_hydrogen-before-core, clean_wildcards) and the string round trip is proved for the whole "
+              "reaction string relative to the RDKit contract plus 'MolToSmiles never emits >'; the neighbors attribute (sorted neighbour symbols) "
+              "is computed by the model and proved sorted, a permutation of the bonded atoms' symbols and independent of RDKit's enumeration order.")
 LEVEL_NOTE = ("Defect found and repaired in this round: rsmi_to_its(explicit_hydrogen=True) double-counted hydrogens on the product side "
               "(its_to_rsmi returned None for 346/346 corpus reactions), /repo commit 61e730e, regress corpus + known_findings.d/C01.json. "
               "RDKit (parse, sanitise, write) is a named premise (contract R1 of theorem C01_rsmi_pipeline), monitored by an independent-reading "
@@ -131,6 +145,14 @@ def impl(case):
     from synkit.Graph.ITS.its_construction import ITSConstruction
     from synkit.Graph.ITS.its_decompose import its_decompose
     k = case.get("kind", "")
+    if k == "rs-split":
+        return RS.obs_split(case["s"])
+    if k == "rs-str":
+        return RS.obs_rs(case)
+    if k == "conv-hist":
+        return RS.obs_conv(case)
+    if k == "g2m-abs":
+        return T.obs_g2m(case["G"], case["ibo"], case["uhc"])
     if k == "api-misc":
         return MI.obs(case)
     if k == "attrs":
@@ -176,6 +198,14 @@ def coq_case(case):
     worker_init()
     k = case.get("kind", "")
     try:
+        if k == "rs-split":
+            return RS.coq_split(case["s"])
+        if k == "rs-str":
+            return RS.coq_rs(case)
+        if k == "conv-hist":
+            return RS.coq_conv(case)
+        if k == "g2m-abs":
+            return RS.coq_g2m_abs(case)
         if k == "api-misc":
             return MI.coq(case)
         if k == "attrs":
@@ -405,8 +435,10 @@ def ih_clauses(gjson, pres):
 def oracle(case):
     if case.get("kind") == "ih":
         return ih_clauses(case["G"], case["pres"])
-    if case.get("kind") in ("m2g", "g2r", "g2m", "cwc"):
+    if case.get("kind") in ("m2g", "g2r", "g2m", "cwc", "rs-split", "conv-hist", "g2m-abs"):
         return []
+    if case.get("kind") == "rs-str":
+        return RS.oracle_rs(case, R.well_formed)
     if case.get("kind") == "api-misc":
         return MI.oracle(case)
     if case.get("kind") == "attrs":
@@ -477,7 +509,7 @@ def neighbours(case, rng):
 def nontrivial(case, obs):
     if case.get("kind") == "ih":
         return bool(case["pres"]) and any(a["element"] == "H" for _, a in case["G"]["nodes"])
-    if case.get("kind") in ("m2g", "g2r", "g2m", "api-misc", "attrs", "cwc"):
+    if case.get("kind") in ("m2g", "g2r", "g2m", "api-misc", "attrs", "cwc", "rs-split", "rs-str", "conv-hist", "g2m-abs"):
         return False
     if case.get("kind", "").startswith("hist-"):
         return True
@@ -518,7 +550,11 @@ def distribution(cases, obss):
             if k.startswith("hist-"):
                 extra["history_steps"] = extra.get("history_steps", 0) + len(c["steps"])
                 continue
-            if k in ("g2r", "g2m", "api-misc", "attrs", "cwc"):
+            if k in ("g2r", "g2m", "api-misc", "attrs", "cwc", "rs-split", "rs-str", "conv-hist", "g2m-abs"):
+                if k == "rs-str":
+                    extra["rs_non_default_options"] = extra.get("rs_non_default_options", 0) + (c["o"] != [True, True, True, False, False] or c["w"] != [True, False, False])
+                    extra["rs_its_raises"] = extra.get("rs_its_raises", 0) + (isinstance(o, list) and len(o) == 5 and o[3] == [2])
+                    extra["rs_string_written"] = extra.get("rs_string_written", 0) + (isinstance(o, list) and len(o) == 5 and isinstance(o[4], list) and o[4][:1] == [0])
                 continue
             if k == "m2g":
                 extra["m2g_with_unmapped_atoms"] += ":" not in c["smiles"] or c["smiles"].count("[") > c["smiles"].count(":")
@@ -1009,6 +1045,9 @@ def gen_histories(rsmi_cases, rng, n_str, n_pair):
         extra.append(dict(kind="g2m", G=c["G"], ibo=rng.random() < 0.5, uhc=rng.random() < 0.5))
     extra += MI.gen_attrs(pairs + gen_malformed(rng, 10), rng, max(150, n_pair))
     extra += MI.gen_cwc(rs, rng, max(40, n_str))
+    extra += RS.gen_rs(rs, list(HAND_STR), rng, max(24, n_str // 2), max(70, n_str * 2))
+    extra += RS.gen_conv(rs, rng, max(30, n_str // 2))
+    extra += RS.gen_g2m_abs(gen_ih(rng, max(40, n_pair // 3)), rng)
     return HI.gen_hist_str(rs, rng, n_str) + HI.gen_hist_pair(pairs, rng, n_pair, _opts) + extra
 
 
